@@ -19,8 +19,6 @@ package bufcheckserverutil
 // Contracts for the gocv verifier (see /verif/DESIGN.md). Comment-only.
 //
 //@ trusted pure interface Request
-//@ trusted pure func bufprotosource.FullNameToEnum(containerDescriptors) (m, err)
-//@ trusted pure func bufprotosource.FullNameToMessage(containerDescriptors) (m, err)
 //@ trusted pure func bufprotosource.FullNameToService(files) (m, err)
 // bufprotosource.FilePathToFile / NameToMethod / NumberToNameToEnumValue: pure contracts in /verif/specs/C03_nodelete.spec
 // NewRuleHandler adapts f to the plugin SDK's handler interface. y_run(r, ctx, w, q) (spec function, see
